@@ -44,15 +44,77 @@ REPO_REAL = os.path.realpath(env.REPO) + os.sep
 B2, B3 = sut.B2, sut.B3
 
 
-def _tables_snapshot():
-    import bec2format.hwcids as HW
+def _stable(v, depth=0):
+    if isinstance(v, dict):
+        return "{" + ",".join(sorted(_stable(k, depth + 1) + ":" + _stable(x, depth + 1) for k, x in v.items())) + "}"
+    if isinstance(v, (set, frozenset)):
+        return "{" + ",".join(sorted(_stable(x, depth + 1) for x in v)) + "}"
+    if isinstance(v, (list, tuple)):
+        return "[" + ",".join(_stable(x, depth + 1) for x in v) + "]"
+    if isinstance(v, (bytes, bytearray, int, str, float, bool)) or v is None:
+        return repr(v)
+    if isinstance(v, type):
+        return "<class %s.%s>" % (v.__module__, v.__qualname__)
+    return "<%s>" % type(v).__name__
 
-    return repr((sorted(B2.Bec2File.AUTH_BLOCK_CLS_MAP.items(), key=lambda kv: kv[0]), sorted(B3.BF2_TAGTYPE_MAP.items()), sorted(B3.BF2_INTERFACES.items()),
-                 sorted(B3.PFID2FILTER_TO_HWCID_SPECIAL_CASES.items()), sorted(HW.HWCID_MAP.items()), sorted(B2.EccEncryptor.DEFAULT_PUBLIC_KEYS.items()),
-                 B3.MAX_TLVBLOCK_SIZE, B3.DEFAULT_SESSION_KEY, B3.BF3_FILE_SIG, B2.BEC2_FILE_SIG))
+
+def _tables_snapshot():
+    """GENERIC snapshot of library-global state: every module-level and class-level container / constant of every bec2format
+    module (dicts, lists, sets, tuples, bytes, numbers, strings; classes by identity), rendered order-independently."""
+    import sys as _sys
+
+    out = []
+    for mname in sorted(m for m in _sys.modules if m == "bec2format" or m.startswith("bec2format.")):
+        mod = _sys.modules[mname]
+        for name, val in sorted(vars(mod).items()):
+            if name.startswith("__") and name.endswith("__"):
+                continue
+            if isinstance(val, (dict, list, set, frozenset, tuple, bytes, bytearray, int, str, float)):
+                out.append("%s.%s=%s" % (mname, name, _stable(val)))
+            elif isinstance(val, type) and getattr(val, "__module__", None) == mname:
+                for an, av in sorted(vars(val).items()):
+                    if an.startswith("__") and an.endswith("__"):
+                        continue
+                    if isinstance(av, (dict, list, set, frozenset, tuple, bytes, bytearray, int, str, float)):
+                        out.append("%s.%s.%s=%s" % (mname, name, an, _stable(av)))
+    return "\n".join(out)
+
+
+def _mutable_globals():
+    import sys as _sys
+
+    for mname in sorted(m for m in _sys.modules if m == "bec2format" or m.startswith("bec2format.")):
+        mod = _sys.modules[mname]
+        for name, val in vars(mod).items():
+            if name.startswith("__"):
+                continue
+            if isinstance(val, (dict, list, set)):
+                yield (mname, name), val
+            elif isinstance(val, type) and getattr(val, "__module__", None) == mname:
+                for an, av in vars(val).items():
+                    if not an.startswith("__") and isinstance(av, (dict, list, set)):
+                        yield (mname, name, an), av
 
 
 _TABLES0 = _tables_snapshot()
+import copy as _copy  # noqa: E402
+
+_SAVED = {k: (v, _copy.copy(v)) for k, v in _mutable_globals()}
+
+
+def _restore_tables():
+    """put mutated module/class-level containers back (in place), so that one state-leaking input does not taint later cases"""
+    for k, (obj, saved) in _SAVED.items():
+        if isinstance(obj, dict):
+            if obj != saved:
+                obj.clear()
+                obj.update(saved)
+        elif isinstance(obj, list):
+            if obj != saved:
+                obj[:] = saved
+        elif obj != saved:
+            obj.clear()
+            obj.update(saved)
 
 
 class _Timeout(BaseException):
@@ -339,8 +401,11 @@ def check(case, rec):
     finally:
         sut.registry_restore()
     rec.cls("outcome=" + outcome)
+    if tables != _TABLES0:
+        _restore_tables()
     if changed or tables != _TABLES0:
-        raise Violation("library-global state changed by parsing (%s): registry %r, tables changed: %r" % (t, changed, tables != _TABLES0))
+        diff = [x for x in tables.split("\n") if x not in set(_TABLES0.split("\n"))][:3]
+        raise Violation("library-global state changed by parsing (%s): registry %r, changed tables/constants: %s" % (t, changed, [d[:300] for d in diff]))
     if outcome == "timeout":
         rec.cls("watchdog-expired")
         verdict = _rerun_isolated(case)
